@@ -118,3 +118,7 @@ Theorem C04_code_lines_verbatim : forall lang extra fc flen content st,
                 ++ [r_prefix2 st ++ repeat fc (fence_len fc flen content)]) ++ [nlc].
 Proof. exact code_block_lines. Qed.
 Print Assumptions C04_code_lines_verbatim.
+
+Theorem C04_fence_language_escapes_undone : forall s, strip_backslash (escape_backslashes_inner s) = s.
+Proof. exact strip_escape_backslashes_inner. Qed.
+Print Assumptions C04_fence_language_escapes_undone.
